@@ -345,8 +345,27 @@ class Flow(object):
         return True
 
     # -- symbolic values ---------------------------------------------------------
+    def sym_after(self, expr, node):
+        """Value of ``expr`` in the state just after ``node`` has executed."""
+        self._after = node.id
+        try:
+            return self.sym(expr, node)
+        finally:
+            self._after = None
+
+    _after = None
+
     def symvar(self, var, node, depth=0):
-        rd = self.rd_in[node.id]
+        rd = self.rd_out[node.id] if self._after == node.id \
+            else self.rd_in[node.id]
+        saved = self._after
+        self._after = None      # definitions' values are taken at their node
+        try:
+            return self._symvar(var, node, depth, rd)
+        finally:
+            self._after = saved
+
+    def _symvar(self, var, node, depth, rd):
         if var not in rd:
             # never defined on any path here: a global / free name, or an
             # attribute chain read but not written: value fixed by its prefix
@@ -430,7 +449,9 @@ class Flow(object):
         for d in self.defs:
             if not self._kills(d, var):
                 continue
-            if d.node.id in reach and d.node is not b:
+            if d.node.id in reach:
+                # (for d.node is b this asks for a cycle through b that
+                # avoids a: the value at b then differs between iterations)
                 if b.id in self.cfg.reachable_from(d.node, avoid=[a]):
                     return True
         return False
@@ -494,6 +515,14 @@ class Flow(object):
                     return P.const(a | b)
                 if opn == "BitXor":
                     return P.const(a ^ b)
+            if opn == "BitAnd":
+                # x & ~(2^k - 1)  ==  2^k * (x // 2^k)  for every int x
+                for a_, b_ in ((l, r), (r, l)):
+                    if b_.is_const() and b_.const_value() < 0 and \
+                            b_.const_value().denominator == 1:
+                        m = -int(b_.const_value())
+                        if m & (m - 1) == 0:
+                            return self.fdiv(a_, P.const(m)) * m
             if opn in ("BitAnd", "BitOr", "BitXor"):
                 args = sorted([l, r], key=repr)
                 name = "%s(%r, %r)" % (opn.lower(), args[0], args[1])
@@ -933,18 +962,22 @@ class Flow(object):
                 [lt(hi, 0), lt(0, L + hi), le(A, L + hi), le(L + hi, A)],
             ])
         elif lo is not None and hi is not None:
-            # s[a:b] with 0 <= a : length <= max(0, b - a)
+            # s[a:b], a, b >= 0:  len = max(0, min(b, L) - min(a, L))
             splits.append([
                 [lt(lo, 0)], [lt(hi, 0)],
-                [le(0, lo), le(0, hi), le(hi, lo), le(A, 0)],
-                [le(0, lo), le(0, hi), lt(lo, hi), le(A, hi - lo),
-                 ],
+                [le(0, lo), le(0, hi), le(hi, L), le(lo, hi),
+                 le(A, hi - lo), le(hi - lo, A)],
+                [le(0, lo), le(0, hi), le(hi, L), lt(hi, lo), le(A, 0)],
+                [le(0, lo), le(0, hi), lt(L, hi), le(lo, L),
+                 le(A, L - lo), le(L - lo, A)],
+                [le(0, lo), le(0, hi), lt(L, hi), lt(L, lo), le(A, 0)],
             ])
-            # and when the slice lies within the sequence it is exact
+        elif lo is not None and hi is None:
+            # s[a:], a >= 0: len = max(0, L - a)
             splits.append([
-                [lt(lo, 0)], [lt(hi, 0)], [lt(L, hi)], [lt(hi, lo)],
-                [le(0, lo), le(lo, hi), le(hi, L), le(A, hi - lo),
-                 le(hi - lo, A)],
+                [lt(lo, 0)],
+                [le(0, lo), le(lo, L), le(A, L - lo), le(L - lo, A)],
+                [le(0, lo), lt(L, lo), le(A, 0)],
             ])
 
     # -- proving --------------------------------------------------------------------
